@@ -21,6 +21,21 @@ def main(argv=None) -> int:
         from . import selftest
         return selftest.main(args)
     seed = int(os.environ.get("VERIF_SEED", "0") or 0)
+    # watchdog: an analysis that does not come back (an algebraic normalisation running away on code the rules have not met) is an
+    # inconclusive answer, never a hang: ANALYSIS-INCONCLUSIVE and exit 2 after the limit (quick 600 s, thorough 3000 s; the clean
+    # tree needs 0.2-10 s / 15 s)
+    try:
+        import signal
+        limit = int(os.environ.get("OSU_VERIF_TIME_LIMIT", "600" if args.tier == "quick" else "3000"))
+
+        def _timeout(signum, frame):
+            print(f"ANALYSIS-INCONCLUSIVE property={pid} rule=watchdog construct=<analysis> at : no answer within {limit} s; "
+                  "the analysis was stopped (no verdict)", flush=True)
+            os._exit(2)
+        signal.signal(signal.SIGALRM, _timeout)
+        signal.alarm(limit)
+    except Exception:
+        pass
     try:
         from .model import Program, AnalysisError
         from .report import Ctx, finish
